@@ -19,6 +19,7 @@ def one(args):
     d = os.path.join(SEEDED, sid)
     meta = json.load(open(os.path.join(d, "meta.json")))
     prop = meta["property"]
+    tier = meta.get("needs_tier", tier)          # a few seeds only manifest in what the thorough tier does (recorded in meta.json)
     scratch = "/tmp/vseed_%s" % sid
     shutil.rmtree(scratch, ignore_errors=True)
     subprocess.check_call(["rsync", "-a", "--exclude", ".git", "--exclude", "*.egg-info", "--exclude", "SEED", "/repo/", scratch + "/"])
